@@ -666,8 +666,8 @@ def get_sqrtprec_from_sqrtprec(dim, sqrtprec, sparse_flag):
     elif sqrtprec.ndim == 2 and sqrtprec.shape[0] != sqrtprec.shape[1]:
         raise ValueError("sqrtprec must be square")     
 
-    # sqrtprec is sparse diagonal
-    elif spa.isspmatrix_dia(sqrtprec):
+    # sqrtprec is sparse diagonal (DIA storage holding only the main diagonal)
+    elif spa.isspmatrix_dia(sqrtprec) and np.array_equal(sqrtprec.offsets, [0]):
         logdet = np.sum(-np.log(sqrtprec.data**2))
         rank = dim
 
